@@ -1378,6 +1378,16 @@ def _loops_over_comprehensions(tree) -> int:
                             and not any(isinstance(x, (ast.NamedExpr, ast.Lambda, ast.Yield, ast.Await)) for x in ast.walk(comp)) \
                             and not any(isinstance(x, (ast.Break, ast.Continue)) for b in st.body for x in ast.walk(b)):
                         g = comp.generators[0]
+                        if isinstance(comp, ast.ListComp):
+                            # a list comprehension is built BEFORE the loop runs: a snapshot of ITER (the body may shrink
+                            # ITER, `for a, n in [(a, n) for n in a.reached]: a.undo(n)`), with E evaluated up front -
+                            # kept as a snapshot, and only for element expressions that merely navigate
+                            if any(isinstance(x, ast.Call) and not (isinstance(x.func, ast.Name) and x.func.id == 'getattr')
+                                   for x in ast.walk(comp.elt)) or g.ifs:
+                                i += 1
+                                continue
+                            g = ast.comprehension(target=g.target, iter=ast.Call(func=ast.Name(id='list', ctx=ast.Load()),
+                                                                                  args=[g.iter], keywords=[]), ifs=[], is_async=0)
                         bind = ast.Assign(targets=[st.target], value=comp.elt, type_comment=None)
                         inner = [bind] + st.body
                         if g.ifs:
